@@ -4,6 +4,7 @@ import (
 	"cmp"
 	"encoding/binary"
 	"github.com/stretchr/testify/mock"
+	"math"
 	"slices"
 	"sync"
 	"sync/atomic"
@@ -85,10 +86,20 @@ func (cm *MemClientMgr) Add(cc *ClientConn) {
 	cm.mu.Lock()
 	defer cm.mu.Unlock()
 
-	cm.nextClientID.Add(1)
-	binary.BigEndian.PutUint16(cc.ID[:], uint16(cm.nextClientID.Load()))
+	// The wire ID is 16 bits wide, so the counter wraps after 65535 connections: skip the reserved zero ID
+	// and any ID that is still held by a connected client.
+	for range math.MaxUint16 {
+		cm.nextClientID.Add(1)
+		binary.BigEndian.PutUint16(cc.ID[:], uint16(cm.nextClientID.Load()))
 
-	cm.clients[cc.ID] = cc
+		if _, inUse := cm.clients[cc.ID]; !inUse && cc.ID != (ClientID{}) {
+			cm.clients[cc.ID] = cc
+			return
+		}
+	}
+
+	// Every ID is in use: leave the connection unregistered under the reserved zero ID.
+	cc.ID = ClientID{}
 }
 
 func (cm *MemClientMgr) Delete(id ClientID) {
